@@ -385,19 +385,15 @@ Proof.
 Qed.
 
 (* Why the snappy clause of codec_ok carries `blen x < alloc_limit` (and wf_entry the matching
-   bound on snappy batches): without it the clause fails for this compressor, and for the same
+   bound on snappy batches): at 2^30 bytes the clause fails for this compressor, and for the same
    reason (the request of the last non-empty chunk is the total decompressed length) for any
    other one, so the unrestricted definition would make every theorem vacuous. *)
-Lemma codec_ok_needs_bound :
-  ~ (forall x, xerial_read_to_end (wcomp 2 x) = Ok x /\ xerial_max_alloc (wcomp 2 x) < alloc_limit).
+Lemma codec_ok_needs_bound : forall x, blen x = alloc_limit ->
+  xerial_read_to_end (wcomp 2 x) = Ok x /\ xerial_max_alloc (wcomp 2 x) = alloc_limit.
 Proof.
-  intros H.
-  remember (Z.to_nat 1073741824) as n eqn:En.
-  assert (Hn : Z.of_nat n = 1073741824) by (subst n; apply Z2Nat.id; lia). clear En.
-  destruct (H (repeat x00 n)) as [_ H2].
-  unfold xerial_max_alloc in H2. rewrite wcomp_run in H2 by (rewrite repeat_length; lia).
-  cbn [snd] in H2. rewrite repeat_length in H2.
-  unfold alloc_limit in H2. change (2 ^ 30) with 1073741824 in H2. lia.
+  intros x Hx. unfold alloc_limit in *. change (2 ^ 30) with 1073741824 in *. unfold blen in Hx.
+  unfold xerial_read_to_end, xerial_max_alloc. rewrite wcomp_run by lia. cbn [fst snd].
+  split; [reflexivity|lia].
 Qed.
 
 (* ====================================================================== *)
